@@ -60,11 +60,8 @@ Proof.
     assert (Hb : nlen b = 132 + nlen c0) by (unfold b; cbn [nlen]; rewrite !nlen_app, L0, L1; lia).
     assert (Hd : ndrop 4 b = t0 ++ (t1 ++ c0)) by (unfold b; cbn; rewrite ndrop_0; now rewrite app_assoc).
     assert (Hd2 : ndrop 68 b = t1 ++ c0).
-    { replace 68 with (nlen (0 :: 0 :: 0 :: 128 :: t0)) by (cbn [nlen]; lia).
-      change b with ((0 :: 0 :: 0 :: 128 :: t0 ++ t1) ++ c0). rewrite <- app_assoc.
-      change ((0 :: 0 :: 0 :: 128 :: t0 ++ t1) ++ c0) with ((0 :: 0 :: 0 :: 128 :: t0) ++ (t1 ++ c0)) at 1.
-      rewrite <- app_assoc. cbn [app]. change (0 :: 0 :: 0 :: 128 :: t0 ++ t1 ++ c0) with ((0 :: 0 :: 0 :: 128 :: t0) ++ t1 ++ c0).
-      apply ndrop_app_exact. }
+    { assert (Eb : b = (0 :: 0 :: 0 :: 128 :: t0) ++ (t1 ++ c0)) by (unfold b; cbn [app]; now rewrite <- app_assoc).
+      rewrite Eb. replace 68 with (nlen (0 :: 0 :: 0 :: 128 :: t0)) by (cbn [nlen]; lia). apply ndrop_app_exact. }
     rewrite (nsub_ok b 4 68) by lia. rewrite (nsub_ok b 68 132) by lia. rewrite Hd, Hd2.
     replace (68 - 4) with (nlen t0) by lia. replace (132 - 68) with (nlen t1) by lia. rewrite !ntake_app_exact.
     split; [reflexivity|]. replace (N.succ (N.succ (N.succ (N.succ (64 + 64 + nlen c0))))) with (nlen b) by lia.
@@ -165,11 +162,18 @@ Proof.
   assert (Hl : hlen s = 8) by (unfold hlen; now rewrite Hdri).
   assert (Hl0 : hlen s < max) by (unfold hlen0 in Hmax; lia).
   unfold enc. rewrite Hp, (payloads_spec max s ty w h data Hs ltac:(lia) Hl0).
-  do 2 eexists. unfold payload_spec. rewrite Hq, Hl.
+  unfold payload_spec. rewrite Hq, Hl.
   assert (Eh : forall o, hdr_of s ty w h o = jhdr o ty 255 w h) by (intros o; unfold hdr_of; rewrite Hdri; cbn [rst_hdr]; now rewrite app_nil_r).
   rewrite (cont_spec_ext _ _ Eh), Eh.
   set (rem := N.min (max - hlen0 s) (nlen data)). assert (Hrem : 0 < rem) by (unfold rem; lia).
-  cbn [mk_pkts dec_run]. rewrite <- app_assoc.
+  set (pls := ((jhdr 0 ty 255 w h ++ qt_hdr tabs) ++ ntake rem data) ::
+              cont_spec (fun o => jhdr o ty 255 w h) rem (chunks (max - 8) (ndrop rem data))).
+  exists (mk_pkts seq pls), (seq_add seq (nlen pls)).
+  cut (exists img' d', rebuild ty w h tabs data = Some img' /\
+         dec_run d (mk_pkts seq pls) = (d', repeat DMore (length (mk_pkts seq pls) - 1) ++ [DFrame img']) /\
+         dfrags d' = [] /\ dfsize d' = 0).
+  { intros (img' & d' & A & B & C & D). exists img', d'. split; [reflexivity|]. split; [exact A|]. split; [exact B|]. split; assumption. }
+  unfold pls. clear pls. cbn [mk_pkts dec_run]. rewrite <- app_assoc.
   rewrite (dec_first ty w h tabs Hty Hw1 Hw2 Hh1 Hh2 Ht d seq 0 _ (ntake rem data)).
   set (d2 := mkD true [ntake rem data] (nlen (ntake rem data)) (Some (ty, w, h)) tabs).
   assert (Hn : nlen (ntake rem data) = rem) by (rewrite nlen_ntake; unfold rem; lia).
@@ -178,32 +182,31 @@ Proof.
     rewrite chunks_nil. cbn [cont_spec mk_pkts]. unfold fin. cbn [negb]. unfold d2; cbn [dfsize dfrags dhdr dqt].
     assert (E : ntake rem data = data) by (rewrite <- (ntake_ndrop rem data) at 2; now rewrite Erest, app_nil_r).
     rewrite E. destruct (N.ltb_spec (nlen data) 2); [lia|].
-    replace (nlen data) with (nlen (concat [data])) at 1 by (cbn [concat]; now rewrite app_nil_r).
-    rewrite join_exact. cbn [concat]. rewrite app_nil_r.
+    pose proof (join_exact [data]) as J. cbn [concat] in J. rewrite app_nil_r in J. rewrite J.
     destruct (rebuild_facts ty w h tabs data Hd2) as (img' & Hr & _). rewrite Hr.
-    exists img'. eexists. split; [reflexivity|]. split; [reflexivity|]. split; [reflexivity|]. split; reflexivity.
+    exists img'. eexists. split; [reflexivity|]. split; [reflexivity|]. split; reflexivity.
   - rewrite <- Erest. assert (Hrne : ndrop rem data <> []) by (rewrite Erest; discriminate).
     pose proof (chunks_ne (max - 8) (ndrop rem data) ltac:(lia) Hrne) as Hcne.
     pose proof (chunks_concat (max - 8) (ndrop rem data) ltac:(lia)) as Hcc.
-    destruct (chunks (max - 8) (ndrop rem data)) as [|c1 ct] eqn:Ec; [contradiction|]. rewrite <- Ec in *.
+    destruct (chunks (max - 8) (ndrop rem data)) as [|c1 ct] eqn:Ec; [contradiction|]. rewrite <- Ec. rewrite <- Ec in Hcc.
     replace (match cont_spec (fun o => jhdr o ty 255 w h) rem (chunks (max - 8) (ndrop rem data)) with [] => true | _ :: _ => false end) with false
       by (rewrite Ec; reflexivity).
     unfold fin at 1. cbn [negb].
-    destruct (cont_run ty w h tabs Hty Hw1 Hw2 Hh1 Hh2 Ht (chunks (max - 8) (ndrop rem data)) d2 (seq_next seq) rem)
+    destruct (cont_run ty w h tabs Hty Hw1 Hw2 Hh1 Hh2 (chunks (max - 8) (ndrop rem data)) d2 (seq_next seq) rem)
       as (img' & d' & Hr & Hrun & Hz1 & Hz2); try (unfold d2; cbn [dfsize dfrags dhdr dqt]; assumption || reflexivity || lia).
+    + rewrite Ec. discriminate.
     + unfold d2; cbn [dfsize dfrags concat]. rewrite app_nil_r. lia.
     + rewrite Hcc, nlen_ndrop. lia.
     + rewrite Hcc, nlen_ndrop. lia.
     + rewrite Hrun. unfold d2 in Hr; cbn [dfrags concat] in Hr. rewrite app_nil_r, Hcc, ntake_ndrop in Hr.
-      exists img', d'. split; [reflexivity|]. split; [exact Hr|]. split; [|split; assumption].
-      f_equal. cbn [length]. rewrite <- (mk_pkts_payloads (seq_next seq)) at 1. 
+      exists img', d'. split; [exact Hr|]. split; [|split; assumption].
       assert (L : length (mk_pkts (seq_next seq) (cont_spec (fun o => jhdr o ty 255 w h) rem (chunks (max - 8) (ndrop rem data)))) =
                   length (chunks (max - 8) (ndrop rem data))).
       { pose proof (mk_pkts_len (seq_next seq) (cont_spec (fun o => jhdr o ty 255 w h) rem (chunks (max - 8) (ndrop rem data)))) as L1.
         destruct (cont_spec_facts (fun o => jhdr o ty 255 w h) 8 (max - 8) ltac:(intros; apply jhdr_len) (chunks (max - 8) (ndrop rem data)) rem
                     (chunks_bounds (max - 8) (ndrop rem data) ltac:(lia))) as (_ & _ & L2).
         rewrite !nlen_length in *. lia. }
-      rewrite Ec in *. cbn [length] in *. rewrite L. cbn [Nat.sub]. rewrite Nat.sub_0_r. reflexivity.
+      f_equal. cbn [length Nat.sub]. rewrite L, Ec. cbn [length Nat.sub repeat app]. rewrite !Nat.sub_0_r. reflexivity.
 Qed.
 
 (* C07: the same statement after an arbitrary history - no intact predecessor is even needed *)
@@ -213,4 +216,53 @@ Theorem resync max hist seq img s data ty w h tabs :
     rebuild ty w h tabs data = Some img' /\
     dec_run (fst (dec_run dinit hist)) ps = (d', repeat DMore (length ps - 1) ++ [DFrame img']) /\
     dfrags d' = [] /\ dfsize d' = 0.
-Proof. intros Hv. apply roundtrip. exact Hv. Qed.
+Proof. intros Hv. exact (roundtrip max seq img s data ty w h tabs _ Hv). Qed.
+
+(* consecutive images through one encoder/decoder pair *)
+Fixpoint expect (pss : list (list packet)) (imgs : list bytes) : list (dres bytes) :=
+  match pss, imgs with
+  | ps :: pt, f :: ft => repeat DMore (length ps - 1) ++ [DFrame f] ++ expect pt ft
+  | _, _ => []
+  end.
+
+Definition valid_at (max : N) (img img' : bytes) : Prop :=
+  exists s data ty w h tabs, valid_image max img s data ty w h tabs /\ rebuild ty w h tabs data = Some img'.
+
+Lemma dec_run_app ps1 ps2 d :
+  dec_run d (ps1 ++ ps2) =
+  let '(d1, r1) := dec_run d ps1 in let '(d2, r2) := dec_run d1 ps2 in (d2, r1 ++ r2).
+Proof.
+  revert d; induction ps1 as [|p t IH]; intros d; cbn [app dec_run].
+  - destruct (dec_run d ps2); reflexivity.
+  - destruct (dec d p) as [d' r]. rewrite IH. destruct (dec_run d' t) as [d1 r1].
+    destruct (dec_run d1 ps2) as [d2 r2]. reflexivity.
+Qed.
+
+Theorem roundtrip_seq max frames imgs' : Forall2 (valid_at max) frames imgs' -> forall seq d,
+  exists pss d', enc_many max seq frames = Some pss /\ dec_run d (concat pss) = (d', expect pss imgs').
+Proof.
+  induction 1 as [|f f' ft ft' (s & data & ty & w & h & tabs & Hv & Hr) Ht IH]; intros seq d; cbn [enc_many].
+  - exists [], d. split; reflexivity.
+  - destruct (roundtrip max seq f s data ty w h tabs d Hv) as (ps & seq' & img' & d1 & -> & Hr' & Hrun & _).
+    rewrite Hr in Hr'. injection Hr' as <-.
+    destruct (IH seq' d1) as (pss & d2 & -> & Hrun2). exists (ps :: pss), d2. split; [reflexivity|].
+    cbn [concat expect]. rewrite dec_run_app, Hrun, Hrun2. now rewrite <- app_assoc.
+Qed.
+
+(* C06 across calls *)
+Definition encodable_at (max : N) (img : bytes) : Prop :=
+  exists s data ty w h, jparse img = JOk s data /\ psof s = Some (ty, w, h) /\ hlen0 s <= max /\ hlen s < max.
+
+Theorem enc_many_gapless max frames : Forall (encodable_at max) frames -> forall seq, seq < 65536 ->
+  exists pss, enc_many max seq frames = Some pss /\
+    forall i p, nnth i (concat pss) = Some p -> pseq p = seq_add seq i.
+Proof.
+  induction 1 as [|f t (s & data & ty & w & h & Hp & Hs & H0 & H1) Ht IH]; intros seq Hq; cbn [enc_many].
+  - exists []. split; [reflexivity|]. intros i p H. cbn in H. discriminate.
+  - destruct (enc_wellformed max seq f s data ty w h Hp Hs H0 H1 Hq) as (ps & -> & _ & _ & _ & Hi & _).
+    destruct (IH (seq_add seq (nlen ps)) (seq_add_lt _ _)) as (pss & -> & Hj).
+    exists (ps :: pss). split; [reflexivity|]. intros i p H. cbn [concat] in H.
+    destruct (N.ltb_spec i (nlen ps)) as [Hlt|Hge].
+    + rewrite nnth_app_l in H by assumption. apply Hi in H. tauto.
+    + rewrite nnth_app_r in H by assumption. apply Hj in H. rewrite H, seq_add_add. f_equal. lia.
+Qed.
